@@ -16,6 +16,8 @@ import (
 	"verif/harness/core"
 	"verif/harness/gen"
 	"verif/harness/obs"
+
+	"github.com/z7zmey/php-parser/pkg/version"
 )
 
 // C11 — concurrent use on different inputs is safe and deterministic.
@@ -40,6 +42,11 @@ type c11Job struct {
 	src []byte
 	ver string
 	cb  bool
+	// shared: the pipeline parses the caller's buffer itself (no private copy) with a Version value that other
+	// pipelines of the batch use at the same time — both are read-only for the library by contract, so the
+	// race detector sees any write to them
+	shared bool
+	v      *version.Version
 }
 
 var c11Stage int64
@@ -55,7 +62,13 @@ func c11Pipeline(j c11Job, log func(stage int)) string {
 	var sb strings.Builder
 	src := append([]byte(nil), j.src...)
 	log(0)
-	pr := obs.Parse(src, j.ver, j.cb)
+	var pr obs.ParseResult
+	if j.shared {
+		src = j.src
+		pr = obs.ParseWith(src, j.v, j.cb)
+	} else {
+		pr = obs.Parse(src, j.ver, j.cb)
+	}
 	log(1)
 	if pr.Panic != nil {
 		return "panic:" + pr.Panic.Sig
@@ -117,11 +130,22 @@ func c11Jobs(seed int64, label string, idx, n int) []c11Job {
 		if len(pc.Src) > 20000 {
 			pc.Src = pc.Src[:20000]
 		}
-		jobs[i] = c11Job{pc.Src, pc.Ver, r.Chance(3, 4)}
+		jobs[i] = c11Job{src: pc.Src, ver: pc.Ver, cb: r.Chance(3, 4)}
 	}
 	// same input twice in one batch
 	if n >= 2 && r.Bool() {
 		jobs[n-1] = jobs[0]
+	}
+	// half of the batches share: one Version value per version string for the whole batch, and the duplicated
+	// input is one buffer parsed by two goroutines at once
+	if r.Bool() {
+		vs := map[string]*version.Version{}
+		for i := range jobs {
+			if _, ok := vs[jobs[i].ver]; !ok {
+				vs[jobs[i].ver] = obs.Ver(jobs[i].ver)
+			}
+			jobs[i].shared, jobs[i].v = true, vs[jobs[i].ver]
+		}
 	}
 	return jobs
 }
